@@ -81,6 +81,14 @@ def run(ck):
     canon = [0, 1, 2, 3, J.RJ - 1, J.RJ - 2, (J.RJ - 1) // 2, 1 << 251, rng.randrange(J.RJ), rng.randrange(J.RJ)]
     if not quick: canon += [rng.randrange(J.RJ) for _ in range(10)] + [(1 << 251) - 1, 0x5555555555555555555555555555555555555555555555555555555555555555 % J.RJ]
     noncanon = [J.RJ, J.RJ + 1, (1 << 252) - 1, 1 << 252, R - 1, (5 + J.RJ), rng.randrange(J.RJ, R)]
+    # several multiplications in ONE composer: same generator twice / three times, two generators interleaved
+    for ti, (s1, s2, s3) in enumerate([(3, 5, 6), (rng.randrange(J.RJ), rng.randrange(J.RJ), 1), (1, 1 << 251, J.RJ - 1)]):
+        G1_, G2_ = J.GEN, J.GEN_NUMS
+        add(f"twice{ti}", ["w " + hx(s1), f"mulgen $0 {e(G1_)}", "w " + hx(s2), f"mulgen $3 {e(G1_)}", "w " + hx(s3), f"mulgen $6 {e(G1_)}", "snap"],
+            ("several", "one generator three times", [(s1, G1_), (s2, G1_), (s3, G1_)], 0))
+        add(f"inter{ti}", ["w " + hx(s1), f"mulgen $0 {e(G1_)}", "w " + hx(s2), f"mulgen $3 {e(G2_)}", "w " + hx(s3), f"mulgen $6 {e(G1_)}", "snap"],
+            ("several", "two generators interleaved", [(s1, G1_), (s2, G2_), (s3, G1_)], 0))
+        ck.count(("several", ti), kind="several multiplications in one composer")
     for gi, (gt, G) in enumerate(gens):
         for si, s in enumerate(canon):
             add(f"g{gi}_s{si}", ["w " + hx(s), f"mulgen $0 {e(G)}", "snap"], ("mulgen", gt, G, s))
@@ -195,6 +203,16 @@ def run(ck):
                 if len(alt) <= 256:
                     w2 = rederive_fixed(snap, snap.wits, list(reversed(alt + [0] * (256 - len(alt)))))
                     job(name + "_rj", snap, w2, False, "digits of s + r_jubjub, accumulators re-derived", name)
+        elif m[0] == "several":
+            if errs:
+                ck.violation(f"component_mul_generator rejected a canonical scalar in a sequence of calls ({m[1]}): {errs}", {"failing_input_found": True, "program": progs[name]}, key="several-reject"); continue
+            pts_ = [(res[3 * k_ + 1], res[3 * k_ + 2]) for k_ in range(len(m[2]))] if len(res) >= 3 * len(m[2]) else []
+            for k_, ((s_, G_), (wx_, wy_)) in enumerate(zip(m[2], pts_)):
+                if (snap.wits[wx_], snap.wits[wy_]) != J.mul(s_, G_):
+                    ck.violation(f"{m[1]}: call {k_ + 1} of component_mul_generator in one composer returned a point different from [s]G (s = {s_:#x})",
+                                 {"failing_input_found": True, "program": progs[name], "call": k_ + 1}, key="several-value")
+                    break
+            job(name, snap, None, True, "honest sequence of fixed-base multiplications", name)
         elif m[0] == "mulgen-noncanonical":
             if errs != ["JubJubScalarMalformed"]:
                 ck.violation(f"component_mul_generator on the non-canonical scalar witness {m[3]:#x}: {'accepted' if not errs else errs[0]}, expected JubJubScalarMalformed", {"failing_input_found": True, "program": progs[name]}, key="noncanonical-entry")
